@@ -2,6 +2,9 @@
 # run_seed.sh <seed ID> <property> [tier]: applies the seeded change to /repo, runs the check, reverts.
 ID=$1; PROP=$2; TIER=${3:-quick}
 cd /repo && git apply /verif/seeded/$ID/patch.diff || { echo "cannot apply"; exit 9; }
+# the evidence file belongs to runs on the unchanged tree: keep it
+cp /verif/evidence/$PROP.json /tmp/evidence_keep_$PROP.json 2>/dev/null
 cd /verif && ./check.sh $PROP $TIER > /tmp/seedrun_${ID}_${PROP}.log 2>&1; RC=$?
+[ -f /tmp/evidence_keep_$PROP.json ] && mv /tmp/evidence_keep_$PROP.json /verif/evidence/$PROP.json
 cd /repo && git checkout -- . && git status --short | head -3
 echo "seed $ID vs check $PROP ($TIER): exit=$RC"; grep -E "^VIOLATION|^UNCONFIRMED|^INFRA|^KNOWN" /tmp/seedrun_${ID}_${PROP}.log | head -5
